@@ -275,6 +275,50 @@ def gen_mapper_case(rng: random.Random):
     return {"tokens": toks, "edges": edges, "steps": steps}
 
 
+def _pn(name):
+    return int(name[1:])
+
+
+def mdump_real(m, tagcode) -> str:
+    """the whole GraphMapper, as `mdump` of Drivers/C20.lean prints the Lean model of it"""
+    def gd(g, f):
+        sk, pk = [f(k) for k in g._successors], [f(k) for k in g._predecessors]
+        succ = {f(k): [f(x) for x in v] for k, v in g._successors.items()}
+        pred = {f(k): [f(x) for x in v] for k, v in g._predecessors.items()}
+        return f"{_sl(sorted(sk))}|{_sl(sorted(pk))}|{_sm(sk, succ)}|{_sm(pk, pred)}"
+
+    def dd(d, f):
+        return ";".join(f"{k}:{f(v)}" for k, v in sorted(d.items())) if d else "-"
+
+    pt = {_pn(k): v for k, v in m.port_tokens.items()}
+    ids = {_pn(k): v for k, v in m.port_name_ids.items()}
+    flat = [t for v in m.port_tokens.values() for t in v]
+    consistent = mapper_consistent(m) is None and len(flat) == len(set(flat))
+    return "#".join([gd(m.dag_tokens, int), gd(m.dcg_ports, _pn), dd(pt, lambda v: _sl(sorted(v))),
+                     dd(m.token_availability, lambda v: "1" if v else "0"), dd(m.token_instances, lambda t: str(tagcode[t.tag])),
+                     dd(ids, lambda v: _sl(sorted(v))), "consistent" if consistent else "INCONSISTENT"])
+
+
+def gen_mapper_adds(rng: random.Random):
+    """`add` sequences in which tokens of a port DO share tags (so `_update_token` meets equal tokens: keep / replace + move to
+    root), followed by move_token_to_root / replace_token"""
+    n = rng.randint(3, 10)
+    nports, ntags = rng.randint(1, 4), rng.randint(1, 3)
+    toks = {i: (f"p{rng.randrange(nports)}", str(rng.randrange(ntags)), rng.random() < 0.5) for i in range(1, n + 1)}
+    ops = []
+    for _ in range(rng.randint(2, 12)):
+        a = rng.randint(1, n)
+        if rng.random() < 0.2:
+            ops.append(("madd", a, None))
+        else:
+            b = rng.randint(1, n)
+            if b != a:
+                ops.append(("madd", min(a, b), max(a, b)) if rng.random() < 0.85 else ("madd", a, b))
+    for _ in range(rng.randint(0, 4)):
+        ops.append(("mroot", rng.random()) if rng.random() < 0.5 else ("mrep", rng.random(), str(rng.randrange(ntags)), rng.random() < 0.5))
+    return {"tokens": toks, "ops": ops}
+
+
 class C20(Property):
     pid = "C20"
     title = "Provenance graph operations keep the graph consistent"
@@ -288,12 +332,18 @@ class C20(Property):
             "histories (a random token DAG over 1..4 ports, then move_token_to_root / replace_token) whose dag_tokens is compared "
             "in the same way and whose port_tokens / token_instances / token_availability must stay in step with it. After every "
             "operation the real DirectedAcyclicGraph's two maps and return value are compared with (1) an independent reference "
-            "graph (node set + edge set + least-fixpoint closure) = the property monitor, (2) the Lean model (driver). "
+            "graph (node set + edge set + least-fixpoint closure) = the property monitor, (2) the Lean model (driver). Whole-mapper "
+            "histories: `add` sequences in which tokens of a port share tags (keep / replace + move to root branches of "
+            "_update_token), then move_token_to_root / replace_token, exceptions included; after every operation both graphs and "
+            "every dictionary of the real GraphMapper are compared with the Lean model of it, and move_token_to_root / replace_token "
+            "/ a single fresh add on a consistent mapper must leave it consistent. "
             "Non-trivial = distinct history containing a removal/replace/promote on a graph with at least one edge.")
     trusted_base = [
         "modelled, not verified: Python set/dict semantics (add/discard/remove/del, iteration over a snapshot); set iteration "
         "order is left arbitrary in the model (lists in any order) and never observed by the theorems",
         "DirectedGraph nodes are modelled as natural numbers (the code only uses hashing and equality)",
+        "GraphMapper: dictionaries are association lists, port names numbers, a token instance is the value get_equal_token compares "
+        "(tag; the JobToken branch, which compares job names, is the same comparison on another attribute and is not exercised)",
     ]
     technique = ("Lean 4 theorems over an executable model of the two adjacency maps (well-founded stack algorithm, loop invariant "
                  "against a least-fixpoint closure spec) + differential correspondence on random operation histories")
@@ -301,7 +351,9 @@ class C20(Property):
                   "duplicate free), remove_nodes without pruning removes exactly the targets, with pruning exactly the least closure "
                   "(order independent, each node once, no dead end left), replace renames edges exactly (ValueError iff), "
                   "promote_to_source cuts incoming edges and removes exactly the closure of dead parents; termination of the stack "
-                  "loop checked by Lean; model compared with the real classes on random histories (DAG and cyclic)")
+                  "loop checked by Lean; GraphMapper (both graphs and all dictionaries) in the model: move_token_to_root, replace_token "
+                  "and the add of a single new token keep it consistent (mapper_consistent, mapper_add_single_consistent); model "
+                  "compared with the real classes on random histories (DAG and cyclic; whole mapper incl. add with equal tokens)")
     level_note = ("Lean kernel, axioms within {propext, Classical.choice, Quot.sound}; hand-written model tied to the code by the "
                   "correspondence check only (no translator: the code is loops over sets, not a table)")
     assumptions = ["node objects behave like values with equality (ints / strings); single-threaded use (no await inside the methods)"]
@@ -374,47 +426,124 @@ class C20(Property):
             meta.append((ops, len(ops) - 1))
             return True
 
-        ok = True
-        with_succ = {i for i, _ in case["edges"]}
-        for i in sorted(toks):
-            if not ok:
-                break
-            if i not in with_succ:
-                m.add(info[i])
-                ref.add(i)
-                ok = sync(("add", i, None), "add")
-            for a, b in case["edges"]:
-                if a == i and ok:
-                    m.add(info[a], info[b])
-                    ref.add(a, b)
-                    ok = sync(("add", a, b), "add")
-        nid = max(toks) + 1
-        for r1, r2, av, then_root in case["steps"]:
-            live = sorted(m.token_instances)
-            if not ok or not live:
-                break
-            t = live[int(r2 * len(live))]
-            if r1 < 0.5:
-                m.move_token_to_root(t)
-                ref.promote(t)
-                ok = sync(("prom", t), "move_token_to_root")
-            else:
-                port = next(pp for pp, ts in m.port_tokens.items() if t in ts)
-                new = _mk_token(nid, m.token_instances[t].tag)
-                nid += 1
-                m.replace_token(port, new, av)
-                ref.replace(t, new.persistent_id)
-                ok = sync(("rep", t, new.persistent_id), "replace_token")
-                if ok and then_root:
-                    m.move_token_to_root(new.persistent_id)
-                    ref.promote(new.persistent_id)
-                    ok = sync(("prom", new.persistent_id), "move_token_to_root")
+        try:
+            ok = True
+            with_succ = {i for i, _ in case["edges"]}
+            for i in sorted(toks):
+                if not ok:
+                    break
+                if i not in with_succ:
+                    m.add(info[i])
+                    ref.add(i)
+                    ok = sync(("add", i, None), "add")
+                for a, b in case["edges"]:
+                    if a == i and ok:
+                        m.add(info[a], info[b])
+                        ref.add(a, b)
+                        ok = sync(("add", a, b), "add")
+            nid = max(toks) + 1
+            for r1, r2, av, then_root in case["steps"]:
+                live = sorted(m.token_instances)
+                if not ok or not live:
+                    break
+                t = live[int(r2 * len(live))]
+                if r1 < 0.5:
+                    m.move_token_to_root(t)
+                    ref.promote(t)
+                    ok = sync(("prom", t), "move_token_to_root")
+                else:
+                    port = next(pp for pp, ts in m.port_tokens.items() if t in ts)
+                    new = _mk_token(nid, m.token_instances[t].tag)
+                    nid += 1
+                    m.replace_token(port, new, av)
+                    ref.replace(t, new.persistent_id)
+                    ok = sync(("rep", t, new.persistent_id), "replace_token")
+                    if ok and then_root:
+                        m.move_token_to_root(new.persistent_id)
+                        ref.promote(new.persistent_id)
+                        ok = sync(("prom", new.persistent_id), "move_token_to_root")
+        except (ru.FailureHandlingException, ValueError, KeyError) as e:
+            # these histories never ask for anything the mapper may refuse (tokens of a port have distinct tags, a replacement
+            # carries the tag of the token it replaces)
+            ctx.fail("mapper:raises", f"after {ops}: {type(e).__name__}: {e}", {"mapper": case})
         ctx.case({"mapper": {"tokens": len(toks), "edges": len(case["edges"]), "ops": [list(o) for o in ops[-6:]]}},
                  ("mapper", repr(case)), "mapper")
+
+    def _run_mapper_adds(self, ctx: Ctx, case, lines, expect, meta):
+        """the whole GraphMapper (both graphs and every dictionary) against its Lean model, `add` with equal tokens included"""
+        m = ru.GraphMapper(None)
+        toks = {int(i): tuple(v) for i, v in case["tokens"].items()}
+        tagcode = {str(k): k for k in range(10)}
+        info = {i: ru.ProvenanceToken(_mk_token(i, tag), av, 100 + _pn(p), p) for i, (p, tag, av) in toks.items()}
+        done = []
+        lines.append("mnew")
+        expect.append("ok")
+        meta.append((done, -1, case))
+
+        def inf(i):
+            p, tag, av = toks[i]
+            return f"{_pn(p)} {100 + _pn(p)} {i} {tagcode[tag]} {int(av)}"
+
+        nid = max(toks) + 1
+        saw_equal = False
+        was_consistent = True
+        for op in case["ops"]:
+            op = tuple(op)
+            single_fresh = False
+            try:
+                if op[0] == "madd":
+                    # the hypotheses of `mapper_add_single_consistent`
+                    single_fresh = (op[2] is None and op[1] not in m.token_instances
+                                    and m.get_equal_token(toks[op[1]][0], info[op[1]].instance) is None)
+                    line = f"madd {inf(op[1])}" + ("" if op[2] is None else f" {inf(op[2])}")
+                    for i in op[1:]:
+                        if i is not None and m.get_equal_token(toks[i][0], info[i].instance) not in (None, i):
+                            saw_equal = True
+                    m.add(info[op[1]], None if op[2] is None else info[op[2]])
+                elif op[0] == "mroot":
+                    live = sorted(m.token_instances)
+                    if not live:
+                        continue
+                    t = live[int(op[1] * len(live))]
+                    line = f"mroot {t}"
+                    m.move_token_to_root(t)
+                else:
+                    ports = sorted(m.port_tokens)
+                    if not ports:
+                        continue
+                    port = ports[int(op[1] * len(ports))]
+                    line = f"mrep {_pn(port)} {nid} {tagcode[op[2]]} {int(op[3])}"
+                    new = _mk_token(nid, op[2])
+                    nid += 1
+                    m.replace_token(port, new, op[3])
+                res = mdump_real(m, tagcode)
+            except (ru.FailureHandlingException, ValueError, KeyError) as e:
+                res = "EXC"
+                ctx.count("mapper-model:raises:" + type(e).__name__)
+            done.append(line)
+            lines.append(line)
+            expect.append(res)
+            meta.append((done, len(done) - 1, case))
+            ctx.count("mapper-model:" + op[0])
+            if res == "EXC":
+                break
+            if res.endswith("INCONSISTENT"):
+                # `add` with an equal, unavailable token can leave a graph node without dictionary entries (design_notes/C20.md,
+                # reproduced by the Lean model: `add_can_break_consistency`); the other two operations must keep a consistent mapper consistent
+                if was_consistent:
+                    ctx.count("mapper-model:consistency-lost-by-" + op[0])
+                    if op[0] != "madd" or single_fresh:
+                        ctx.fail("mapper:inconsistent:" + op[0], f"after {done}: {res}", {"mapper_adds": case})
+            if single_fresh and was_consistent:
+                ctx.count("mapper-model:add-single-fresh-on-consistent")
+            was_consistent = not res.endswith("INCONSISTENT")
+        ctx.case({"mapper_adds": {"tokens": len(toks), "ops": done[-6:]}}, ("mapper-adds", repr(case)) if saw_equal else None, "mapper-model")
 
     def explore(self, ctx: Ctx) -> None:
         rng = ctx.rng
         lines, expect, meta = [], [], []
+        for _ in range(400 if ctx.tier == "quick" else 4000):
+            self._run_mapper_adds(ctx, gen_mapper_adds(rng), lines, expect, meta)
         for _ in range(400 if ctx.tier == "quick" else 4000):
             self._run_mapper(ctx, gen_mapper_case(rng), lines, expect, meta)
         for ops in CORPUS:
@@ -448,7 +577,13 @@ class C20(Property):
             del itertools
         got = ctx.lean(DRIVER, lines)
         bad = set()
-        for gl, e, (ops, i) in zip(got, expect, meta):
+        for gl, e, mt in zip(got, expect, meta):
+            ops, i = mt[0], mt[1]
+            if len(mt) > 2:
+                if gl != e and id(ops) not in bad:
+                    bad.add(id(ops))
+                    ctx.disagree("model vs GraphMapper", f"after {ops[: i + 1]}: code {e!r}, Lean model {gl!r}", {"mapper_adds": mt[2]})
+                continue
             if e.startswith("*|"):                      # mapper histories: only the graph is compared
                 gl, e = gl.split("|", 1)[-1], e[2:]
             if gl != e and id(ops) not in bad:
@@ -457,6 +592,13 @@ class C20(Property):
 
     def replay(self, ctx: Ctx, data) -> None:
         r = data.get("replay") or (data.get("no_longer_checks") or [{}])[0].get("case") or {}
+        if "mapper_adds" in r:
+            lines, expect, meta = [], [], []
+            self._run_mapper_adds(ctx, r["mapper_adds"], lines, expect, meta)
+            got = ctx.lean(DRIVER, lines)
+            for ln, gl, e in zip(lines, got, expect):
+                print(ln, "\n   code ", e, "\n   model", gl, "" if gl == e else "   <-- model differs")
+            return
         if "mapper" in r:
             case = r["mapper"]
             case["tokens"] = {int(k): tuple(v) for k, v in case["tokens"].items()}
